@@ -79,7 +79,7 @@ def run_check(prop, tier, seed):
         if pa['rc']:
             broken_proof = {'stage': 'coq', 'file': f'theories/Properties/{prop}.v', 'error': pa['raw'][-1500:]}
         else:
-            unknown = [a for a in pa['axioms'] if a not in C.ALLOWED_AXIOMS]
+            unknown = list(pa['unknown'])
             if unknown or len(pa['printed']) < len(pa['theorems']) or not pa['theorems']:
                 broken_proof = {'stage': 'assumptions', 'unknown_axioms': unknown,
                                 'theorems': pa['theorems'], 'printed': pa['printed']}
